@@ -1,19 +1,31 @@
 from ..driver import Prop, Suite
-from .. import loggen
+from .. import loggen, execgen, multigen
 
 class C09(Prop):
     pid = "C09"; prop_file = "C09.v"
     rule = ("cases: 1-3 publisher threads (1-4 events each) and 1-3 listener threads, each of which subscribes at a random point of the schedule (new only / old+new split / old+new joined) "
             "and then consumes its subscriber(s), on MMapMeta<u32> over a private temp file; random bursty schedule. non-trivial = a subscription call lands while a publisher holds a position that is not yet visible")
-    trusted_base = ["the raw log topic MMapMeta is in lock-step; the MmapLog Multi channel above it (streams manager + wake-all) is not in this suite",
-                    "gap-free consecutive delivery per listener and per-producer order are checked by the oracle on every implementation history, not proved (the theorems give: one total order, entitlement bounds, split partition, reference stability)",
+    trusted_base = ["the raw log topic MMapMeta is in lock-step; the MmapLog Multi channel above it (streams manager + wake-all) runs with the oracle only: its old / new pair of "
+                    "executors under tokio's paused clock (`log_channel_old_new`) and its listeners under the baton scheduler (`log_channel_listeners`, as in C03)",
                     "mmap / file-system behaviour is outside the model (positions < 2^64, file large enough for the case)"]
     assumptions = ["one consuming thread per subscriber (as with one stream per listener)"]
     def suites(self, tier, rng):
         n = 250 if tier == "quick" else 4000
-        return [Suite("log", loggen.HEADER, [loggen.gen_case(rng) for _ in range(n)])]
-    def oracle(self, case, recs): return loggen.oracle(case, recs)
-    def nontrivial(self, case, recs): return loggen.nontrivial(case, recs)
+        return [Suite("log", loggen.HEADER, [loggen.gen_case(rng) for _ in range(n)]),
+                # the MmapLog Multi channel above the topic (oracle only): an old / new pair of executors created after some events were sent -
+                # the old stream gets exactly those, the new one exactly the later ones; and 1-2 listeners polled under the scheduler
+                Suite("log_channel_old_new(oracle only)", "", [execgen.gen_logcase(rng) for _ in range(n // 4)], compare=False),
+                Suite("log_channel_listeners(oracle only)", "", [multigen.gen_fixed(rng, "mmap_log") for _ in range(n // 5)], compare=False)]
+    def oracle(self, case, recs):
+        if case.meta.get("profile") == "mlog": return execgen.oracle_mlog(case, recs)
+        if case.meta.get("profile") == "fixed": return multigen.oracle_fixed(case, recs)
+        return loggen.oracle(case, recs)
+    def nontrivial(self, case, recs):
+        if case.meta.get("profile") == "mlog": return 0 < case.meta["old"] < len(case.meta["items"])
+        if case.meta.get("profile") == "fixed": return True
+        return loggen.nontrivial(case, recs)
     def parse_replay(self, text):
         lines = [l for l in text.splitlines() if l.strip() and not l.startswith("#")]
+        if all(l.startswith("mexec") for l in lines): return Suite("replay", "", [execgen.parse_case_line(l) for l in lines], compare=False)
+        if all(l.startswith("multi") for l in lines): return Suite("replay", "", [multigen.parse_case_line(l) for l in lines], compare=False)
         return Suite("replay", loggen.HEADER, [loggen.parse_case_line(l) for l in lines])
